@@ -56,9 +56,12 @@ Definition terms_eq (a a' : auction) : Prop :=
 Definition bid_keys_eq (b b' : bid) : Prop :=
   b_auction b' = b_auction b /\ b_id b' = b_id b /\ b_bidder b' = b_bidder b /\ b_type b' = b_type b
   /\ b_denom b' = b_denom b.
-(* the bids evolve by updating records in place (keeping their keys) and appending *)
+(* every bid that can be looked up stays, under the same key, with the same bidder, type and denomination *)
 Definition bids_evolve (s s' : state) : Prop :=
-  exists g extra, st_bids s' = map g (st_bids s) ++ extra /\ forall b, bid_keys_eq b (g b).
+  forall a i b, find_bid s a i = Some b -> exists b', find_bid s' a i = Some b' /\ bid_keys_eq b b'.
+(* bid keys are unique (holds in every reachable state) *)
+Definition bid_keys_unique (s : state) : Prop :=
+  NoDup (map (fun b => (b_auction b, b_id b)) (st_bids s)).
 
 Definition round_bounded (a : auction) : Prop :=
   (1 <= length (a_ends a) <= N.to_nat (a_max_round a) + 1)%nat /\ (a_max_round a <= 30)%N.
@@ -484,41 +487,97 @@ Proof. intros H. rewrite <- find_auction_put. apply find_auction_conv. exact H. 
 (* bids_evolve *)
 Lemma bid_keys_eq_refl b : bid_keys_eq b b.
 Proof. repeat split. Qed.
+Lemma bid_keys_eq_trans b1 b2 b3 : bid_keys_eq b1 b2 -> bid_keys_eq b2 b3 -> bid_keys_eq b1 b3.
+Proof. intros (A1 & A2 & A3 & A4 & A5) (B1 & B2 & B3 & B4 & B5). repeat split; congruence. Qed.
 Lemma bids_evolve_same s s' : st_bids s' = st_bids s -> bids_evolve s s'.
 Proof.
-  intros H. exists (fun b => b), []. split; [|intros b; apply bid_keys_eq_refl].
-  rewrite map_id, app_nil_r. exact H.
+  intros H a i b F. exists b. split; [|apply bid_keys_eq_refl]. unfold find_bid in *. rewrite H. exact F.
 Qed.
-Lemma bids_evolve_app s s' e : st_bids s' = st_bids s ++ e -> bids_evolve s s'.
-Proof.
-  intros H. exists (fun b => b), e. split; [|intros b; apply bid_keys_eq_refl].
-  rewrite map_id. exact H.
-Qed.
-Lemma bids_evolve_map s s' g : st_bids s' = map g (st_bids s) -> (forall b, bid_keys_eq b (g b)) -> bids_evolve s s'.
-Proof. intros H K. exists g, []. split; [rewrite app_nil_r; exact H|exact K]. Qed.
 Lemma bids_evolve_trans s1 s2 s3 : bids_evolve s1 s2 -> bids_evolve s2 s3 -> bids_evolve s1 s3.
 Proof.
-  intros (g1 & e1 & H1 & K1) (g2 & e2 & H2 & K2).
-  exists (fun b => g2 (g1 b)), (map g2 e1 ++ e2). split.
-  - rewrite H2, H1, map_app, map_map, app_assoc. reflexivity.
-  - intros b. destruct (K1 b) as (A1 & A2 & A3 & A4 & A5). destruct (K2 (g1 b)) as (B1 & B2 & B3 & B4 & B5).
-    repeat split; congruence.
+  intros H1 H2 a i b F. destruct (H1 a i b F) as (b' & F' & K'). destruct (H2 a i b' F') as (b'' & F'' & K'').
+  exists b''. split; [exact F''|]. eapply bid_keys_eq_trans; eassumption.
+Qed.
+Lemma find_app_some {A} (f : A -> bool) l e x : find f l = Some x -> find f (l ++ e) = Some x.
+Proof. induction l as [|y l IH]; cbn [app find]; [discriminate|]. destruct (f y); auto. Qed.
+Lemma bids_evolve_app s s' e : st_bids s' = st_bids s ++ e -> bids_evolve s s'.
+Proof.
+  intros H a i b F. exists b. split; [|apply bid_keys_eq_refl]. unfold find_bid in *. rewrite H.
+  apply find_app_some. exact F.
+Qed.
+Lemma find_map_keep {A} (f : A -> bool) (g : A -> A) l :
+  (forall x, f (g x) = f x) -> find f (map g l) = option_map g (find f l).
+Proof.
+  intros H. induction l as [|x l IH]; cbn [map find]; [reflexivity|]. rewrite H.
+  destruct (f x); [reflexivity|exact IH].
+Qed.
+Lemma bids_evolve_map s s' g :
+  st_bids s' = map g (st_bids s) -> (forall b, bid_keys_eq b (g b)) -> bids_evolve s s'.
+Proof.
+  intros H K a i b F. exists (g b). split; [|apply K]. unfold find_bid in *. rewrite H.
+  rewrite find_map_keep; [rewrite F; reflexivity|].
+  intros x. destruct (K x) as (A1 & A2 & _). rewrite A1, A2. reflexivity.
+Qed.
+Lemma find_replace_same {A} (p q : A -> bool) (b : A) l :
+  p b = true -> (forall x, q x = p x) ->
+  find p (map (fun x => if q x then b else x) l) = match find p l with Some _ => Some b | None => None end.
+Proof.
+  intros Hb Hq. induction l as [|x l IH]; cbn [map find]; [reflexivity|].
+  rewrite Hq. destruct (p x) eqn:E; [rewrite Hb; reflexivity|rewrite E; exact IH].
+Qed.
+Lemma find_replace_other {A} (p q : A -> bool) (b : A) l :
+  p b = false -> (forall x, q x = true -> p x = false) ->
+  find p (map (fun x => if q x then b else x) l) = find p l.
+Proof.
+  intros Hb Hq. induction l as [|x l IH]; cbn [map find]; [reflexivity|].
+  destruct (q x) eqn:E; [rewrite Hb, (Hq x E); exact IH|]. destruct (p x); [reflexivity|exact IH].
+Qed.
+Lemma find_put_bid (l : list bid) (b : bid) (a i : N) :
+  find (fun x => N.eqb (b_auction x) a && N.eqb (b_id x) i)
+       (map (fun x => if N.eqb (b_auction x) (b_auction b) && N.eqb (b_id x) (b_id b) then b else x) l)
+  = if N.eqb a (b_auction b) && N.eqb i (b_id b)
+    then match find (fun x => N.eqb (b_auction x) a && N.eqb (b_id x) i) l with Some _ => Some b | None => None end
+    else find (fun x => N.eqb (b_auction x) a && N.eqb (b_id x) i) l.
+Proof.
+  destruct (N.eqb a (b_auction b) && N.eqb i (b_id b)) eqn:E.
+  - apply andb_true_iff in E. destruct E as [Ea Ei]. apply N.eqb_eq in Ea, Ei. subst a i.
+    apply (find_replace_same (fun x => N.eqb (b_auction x) (b_auction b) && N.eqb (b_id x) (b_id b))).
+    + rewrite !N.eqb_refl. reflexivity.
+    + intros x. reflexivity.
+  - apply (find_replace_other (fun x => N.eqb (b_auction x) a && N.eqb (b_id x) i)).
+    + rewrite (N.eqb_sym (b_auction b)), (N.eqb_sym (b_id b)). exact E.
+    + intros x Hx. apply andb_true_iff in Hx. destruct Hx as [Ha Hi]. apply N.eqb_eq in Ha, Hi.
+      rewrite Ha, Hi, (N.eqb_sym (b_auction b)), (N.eqb_sym (b_id b)). exact E.
+Qed.
+Lemma bids_evolve_put_bid s s' b0 b :
+  st_bids s' = st_bids (put_bid s b) -> find_bid s (b_auction b) (b_id b) = Some b0 -> bid_keys_eq b0 b ->
+  bids_evolve s s'.
+Proof.
+  intros H F0 K a i x F. unfold find_bid in *. rewrite H. unfold put_bid. cbn [st_bids with_bids].
+  rewrite find_put_bid. destruct (N.eqb a (b_auction b) && N.eqb i (b_id b)) eqn:E.
+  - apply andb_true_iff in E. destruct E as [Ea Ei]. apply N.eqb_eq in Ea, Ei. subst a i.
+    rewrite F. exists b. split; [reflexivity|]. congruence.
+  - exists x. split; [exact F|apply bid_keys_eq_refl].
+Qed.
+Lemma find_of_in_unique (l : list bid) (b : bid) :
+  NoDup (map (fun b => (b_auction b, b_id b)) l) -> In b l ->
+  find (fun x => N.eqb (b_auction x) (b_auction b) && N.eqb (b_id x) (b_id b)) l = Some b.
+Proof.
+  induction l as [|x l IH]; cbn [map find In]; intros ND HI; [contradiction|].
+  inversion ND as [|? ? Hn ND']; subst. destruct HI as [->|HI].
+  - rewrite !N.eqb_refl. reflexivity.
+  - destruct (N.eqb (b_auction x) (b_auction b) && N.eqb (b_id x) (b_id b)) eqn:E.
+    + apply andb_true_iff in E. destruct E as [Ea Ei]. apply N.eqb_eq in Ea, Ei.
+      exfalso. apply Hn. apply in_map_iff. exists b. split; [|exact HI]. congruence.
+    + apply IH; assumption.
 Qed.
 Lemma bids_evolve_in s s' b :
-  bids_evolve s s' -> In b (st_bids s) -> exists b', In b' (st_bids s') /\ bid_keys_eq b b'.
+  bid_keys_unique s -> bids_evolve s s' -> In b (st_bids s) ->
+  exists b', In b' (st_bids s') /\ bid_keys_eq b b'.
 Proof.
-  intros (g & e & H & K) HI. exists (g b). split; [|apply K].
-  rewrite H. apply in_or_app. left. apply in_map. exact HI.
-Qed.
-Lemma bids_evolve_find s s' a i b :
-  bids_evolve s s' -> find_bid s a i = Some b -> exists b', find_bid s' a i = Some b' /\ bid_keys_eq b b'.
-Proof.
-  intros (g & e & H & K) HF. unfold find_bid in *. rewrite H. clear H.
-  induction (st_bids s) as [|x l IH]; cbn [map app find] in *; [discriminate|].
-  destruct (K x) as (A1 & A2 & _). rewrite A1, A2.
-  destruct (N.eqb (b_auction x) a && N.eqb (b_id x) i).
-  - injection HF as ->. exists (g b). split; [reflexivity|apply K].
-  - apply IH. exact HF.
+  intros U H HI. destruct (H (b_auction b) (b_id b) b) as (b' & F & K).
+  - unfold find_bid. apply find_of_in_unique; assumption.
+  - exists b'. split; [|exact K]. unfold find_bid in F. apply find_some in F. apply F.
 Qed.
 
 Ltac frame_tac2 :=
